@@ -571,7 +571,7 @@ inline bool plan_effect(Model const& M, ModelTraits const& T, Op const& op, Effe
 			if(op.kind == O_VASSIGN_VIEW && (op.var < 0 || op.var > 6)) return false;
 			if(op.kind == O_VASSIGN_VIEW && (op.var == 2 || op.var == 4 || op.var == 6) && !T.tracked && !T.trivial) return false;
 			if(op.kind == O_VASSIGN_VIEW && op.var == 6 && (op.cb.n != 0 || same_root || T.static_arrays)) return false;  // source is a whole moved array: std::move(b)()  // moved-from value of such elements is unspecified
-			if(op.kind == O_VSWAP && (op.var < 0 || op.var > 1)) return false;
+			if(op.kind == O_VSWAP && (op.var < 0 || op.var > 2)) return false;
 		}
 		bool const overlap = same_root && !disjoint(dv, sv);
 		if(overlap && !(op.ov == 1 && op.var == 0 && op.kind != O_VSWAP)) return false;
@@ -601,7 +601,7 @@ inline bool plan_effect(Model const& M, ModelTraits const& T, Op const& op, Effe
 				a.v[static_cast<std::size_t>(dv.off[i])]  = y;
 				b->v[static_cast<std::size_t>(sv.off[i])] = x;
 			}
-			var(op.var ? "adl" : "member");
+			var(op.var == 0 ? "member" : op.var == 1 ? "adl" : "adl-lvalues");
 			return true;
 		}
 		if(overlap) {  // element by element in canonical order, reading what has already been written (the documented element-wise copy)
